@@ -4,10 +4,14 @@ Multi-tree scenes with sleeping enabled and a raised tolerance are driven throug
 trees fall asleep; velocity kicks, applied forces, an awake body running into a sleeping one, mocap pushes).  Clause
 monitors are fed with mujoco_warp's own per-step observations (they check the statement's implications; they are not a
 second implementation of sleep.py):
-  (i)    a tree asleep before and after a step has bit-unchanged qpos and qvel, and zero qvel and qacc;
-  (ii-a) a sleeping tree that receives applied force (xfrc/qfrc) or velocity is awake after the step (same-step liveness);
+  (i)    a tree asleep before the step, after the wake passes of forward() (stage tap) and after the step has bit-unchanged qpos and
+         qvel, and zero qvel and qacc (a tree that is woken by a neighbour and put back to sleep with its island at the end of the same
+         step was simulated awake: it is counted, not judged by this clause);
+  (ii-a) a sleeping tree that receives applied force (xfrc/qfrc) or velocity is awake after the wake passes of the same step;
   (ii-b) a sleeping tree that wakes has a cause: user force/velocity, a reported contact with a tree that is awake, an active
-         equality or limited tendon to an awake tree;
+         equality or limited tendon to an awake tree, or membership in the sleep cycle of a tree that has one;
+  (vi)   sleep cycles stay well-formed circular lists: following tree_asleep from a sleeping tree visits sleeping trees only and
+         returns to it;
   (ii-c) a tree that falls asleep was below the velocity tolerance (|dof_length*qvel| < tol) with no applied force at the
          beginning of the step, and so was every tree of its island;
   (iii)  bounded liveness: once inputs stop and every dof of a world stays below half the tolerance, all its (non-never)
@@ -26,7 +30,7 @@ from .. import rng as _rng
 ID = "C29"
 LEVEL = "exploration"
 TIERS = {
-  "quick": {"runs": 64, "chunk": 4, "budget_s": 480, "timeout_s": 400},
+  "quick": {"runs": 48, "chunk": 3, "budget_s": 400, "timeout_s": 400},
   "thorough": {"runs": 960, "chunk": 8, "budget_s": 3300, "timeout_s": 600},
 }
 RULE = ("one evaluation = one clause instance on one (world, tree, step) of a seeded history (60-220 steps) of a multi-tree scene with "
@@ -42,8 +46,30 @@ ASSUMPTIONS = ["clause (iv) is deliberately weak (persisting disagreement only, 
 SLEEP_KERNELS = ["sleep", "wake", "island", "awake", "_flood", "_tree", "_compact", "_update_sleep", "_sweep", "_build_cycles", "_check_island"]
 
 
+class _MidTap:
+  """Stage tap (seam S7): the asleep pattern right after forward() inside step(), i.e. after every wake pass and before the integrator and
+  sleep(). Used to tell a tree that slept through the step from one that was woken and put back to sleep within it."""
+
+  def __enter__(self):
+    from mujoco_warp._src import forward as F
+
+    self.F, self.orig, self.mid = F, F.forward, None
+    rec = self
+
+    def tapped(m, d):
+      out = rec.orig(m, d)
+      rec.mid = d.tree_asleep.numpy() >= 0
+      return out
+
+    F.forward = tapped
+    return self
+
+  def __exit__(self, *a):
+    self.F.forward = self.orig
+
+
 def _accept(mjm):
-  return mjm.ntree >= 2 and mjm.nv <= 48
+  return mjm.ntree >= 2 and mjm.nv <= 60
 
 
 def gen(seed, idx, tier):
@@ -133,6 +159,10 @@ def run(sc):
         fault("kick")
       if r.random() < sc["event_p"]:
         bods = np.nonzero(body_tree >= 0)[0]
+        jointless = np.array([bb for bb in bods if mjm.body_jntnum[bb] == 0], dtype=int)
+        if jointless.size and r.random() < 0.5:
+          bods = jointless  # a body rigidly attached to its parent: it belongs to the tree although no joint or dof is its own
+          fault("xfrc_on_jointless_body")
         b = int(bods[int(r.integers(0, bods.size))])
         d.xfrc_applied.numpy()[w, b] = r.normal(0, 4.0, 6).astype(np.float32)
         force_until[(w, b)] = k + int(r.integers(1, 4))
@@ -150,7 +180,8 @@ def run(sc):
       for t in range(ntree):
         if np.any(xf[w][body_tree == t] != 0) or np.any(qf[w][dof_tree == t] != 0):
           user[w, t] = True
-    pre_asleep = d.tree_asleep.numpy() >= 0
+    pre_tree_asleep = d.tree_asleep.numpy().copy()
+    pre_asleep = pre_tree_asleep >= 0
     pre_qpos, pre_qvel = d.qpos.numpy().copy(), d.qvel.numpy().copy()
     meas = np.abs(pre_qvel * dof_len[None, :])
     below = np.array([[bool(np.all(meas[w][dof_tree == t] < tol * (1 + 1e-3))) for t in range(ntree)] for w in range(nworld)])
@@ -168,13 +199,25 @@ def run(sc):
         mjd.mocap_pos[:] = d.mocap_pos.numpy()[0]
       if mjm.nu:
         mjd.ctrl[:] = d.ctrl.numpy()[0]
+    if sc.get("_trace"):
+      print("TRACE", k, d.tree_asleep.numpy().tolist(), "user", np.nonzero(user)[1].tolist(), flush=True)
+    if sc.get("_dump_at") == k:  # debugging aid for replays: the complete pre-step Data of one step
+      import dataclasses as _dc
+
+      dump = {f.name: getattr(d, f.name).numpy() for f in _dc.fields(type(d)) if hasattr(getattr(d, f.name), "numpy")}
+      for sub in ("efc", "contact"):
+        so = getattr(d, sub)
+        dump.update({sub + "." + f.name: getattr(so, f.name).numpy() for f in _dc.fields(type(so)) if hasattr(getattr(so, f.name), "numpy")})
+      np.savez(sc["_dump_path"], **dump)
     # ---- the step (sleep / island kernels under the chosen schedule)
     seams.set_policy(pol)
     seams.reset_counters()
     try:
-      mjw.step(m, d)
+      with _MidTap() as tap:
+        mjw.step(m, d)
     finally:
       seams.set_policy(None)
+    mid_asleep = tap.mid if tap.mid is not None else (d.tree_asleep.numpy() >= 0)
     if pol is not None:
       fault("sleep_kernel_launches_" + sc["sched"], seams.S.permuted)
     stats["sim_time"] += float(mjm.opt.timestep) * nworld
@@ -196,6 +239,35 @@ def run(sc):
         a, b = geom_tree[cg[c][0]], geom_tree[cg[c][1]]
         if a >= 0 and b >= 0:
           touch[a, b] = touch[b, a] = True
+      # wake causes (ii-b): a direct cause (user input; a reported contact with a tree that is awake after the wake passes; a static
+      # equality link or - conservatively - any tendon to such a tree), or membership in the pre-step sleep cycle of a tree with one
+      awake_mid = ~mid_asleep[w]
+      causes = [None] * ntree
+      for t in range(ntree):
+        others = np.arange(ntree) != t
+        causes[t] = ("user" if user[w, t] else "contact" if np.any(touch[t] & awake_mid & others) else "equality" if np.any(linked[t] & awake_mid & others)
+                     else "tendon" if has_tendon else None)
+      for t in range(ntree):
+        if pre_asleep[w, t] and causes[t] is None:
+          u, hops = int(pre_tree_asleep[w, t]), 0
+          while 0 <= u < ntree and u != t and hops <= ntree:
+            if causes[u] not in (None, "cycle"):
+              causes[t] = "cycle"
+              break
+            u, hops = int(pre_tree_asleep[w, u]), hops + 1
+      # (vi) sleep cycles are well-formed circular lists: following the pointers from a sleeping tree visits sleeping trees only and
+      # returns to it (a tree left outside the cycle it points into is not woken when that cycle is)
+      post_ta = d.tree_asleep.numpy()[w]
+      for t in range(ntree):
+        if post_ta[t] >= 0:
+          stats["evaluations"] += 1
+          u, hops = int(post_ta[t]), 0
+          while u != t and 0 <= u < ntree and post_ta[u] >= 0 and hops <= ntree:
+            u, hops = int(post_ta[u]), hops + 1
+          if u != t:
+            viol("vi", "malformed_sleep_cycle", {"step": k, "world": w, "tree": t, "tree_asleep": post_ta.tolist(), "tree_asleep_pre": pre_tree_asleep[w].tolist(),
+                                                 "tree_island": island[w].tolist()})
+            break
       for t in range(ntree):
         dsel = dof_tree == t
         qsel = np.zeros(mjm.nq, dtype=bool)
@@ -203,27 +275,33 @@ def run(sc):
           if body_tree[mjm.jnt_bodyid[j]] == t:
             a = mjm.jnt_qposadr[j]
             qsel[a : a + {0: 7, 1: 4, 2: 1, 3: 1}[int(mjm.jnt_type[j])]] = True
-        pa, qa = bool(pre_asleep[w, t]), bool(post_asleep[w, t])
-        if pa and qa:
+        pa, qa, ma = bool(pre_asleep[w, t]), bool(post_asleep[w, t]), bool(mid_asleep[w, t])
+        if pa and qa and not ma:
+          # woken by one of the wake passes of forward() and put back to sleep with its island at the end of the same step (a woken tree
+          # inherits the count-down of the tree that woke it): it was simulated awake during this step, clause (i) does not apply
+          fault("woke_and_slept_within_one_step")
+        if pa and qa and ma:
           stats["evaluations"] += 1
           stats["nontrivial"].append(f"i|stay-asleep|{key0}")
           if not (core.bits_equal(qpos[w][qsel], pre_qpos[w][qsel]) and core.bits_equal(qvel[w][dsel], pre_qvel[w][dsel])):
-            viol("i", "sleeping_tree_moved", {"step": k, "world": w, "tree": t})
+            viol("i", "sleeping_tree_moved", {"step": k, "world": w, "tree": t, "max_dqpos": float(np.max(np.abs(qpos[w][qsel] - pre_qpos[w][qsel]))),
+                                               "max_dqvel": float(np.max(np.abs(qvel[w][dsel] - pre_qvel[w][dsel]))), "user_input": bool(user[w, t]),
+                                               "tree_asleep_pre": pre_tree_asleep[w].tolist(), "tree_asleep_post": d.tree_asleep.numpy()[w].tolist()})
           elif np.any(qvel[w][dsel] != 0) or np.any(qacc[w][dsel] != 0):
             viol("i", "sleeping_tree_nonzero_velocity_or_acceleration", {"step": k, "world": w, "tree": t, "qacc": qacc[w][dsel].tolist()})
-          if user[w, t]:
-            viol("ii-a", "user_input_did_not_wake", {"step": k, "world": w, "tree": t})
         if pa and user[w, t]:
           stats["evaluations"] += 1
           stats["nontrivial"].append(f"ii-a|wake-by-user|{key0}")
-        if pa and not qa:
+          if ma:
+            viol("ii-a", "user_input_did_not_wake", {"step": k, "world": w, "tree": t})
+        if pa and not ma:
           stats["evaluations"] += 1
-          awake_now = ~post_asleep[w]
-          cause = "user" if user[w, t] else "contact" if np.any(touch[t] & awake_now & (np.arange(ntree) != t)) else "equality" if np.any(linked[t] & awake_now) else "tendon" if has_tendon else None
+          cause = causes[t]
           stats["nontrivial"].append(f"ii-b|wake-by-{cause}|{key0}")
           fault("wake_" + str(cause))
           if cause is None and not mjm.nmocap:
-            viol("ii-b", "woke_without_cause", {"step": k, "world": w, "tree": t, "touching": np.nonzero(touch[t])[0].tolist(), "awake_after": np.nonzero(awake_now)[0].tolist()})
+            viol("ii-b", "woke_without_cause", {"step": k, "world": w, "tree": t, "touching": np.nonzero(touch[t])[0].tolist(), "awake_mid_step": np.nonzero(~mid_asleep[w])[0].tolist(),
+                                                "tree_asleep_pre": pre_tree_asleep[w].tolist()})
         if (not pa) and qa:
           stats["evaluations"] += 1
           stats["nontrivial"].append(f"ii-c|fall-asleep|{key0}")
